@@ -1791,6 +1791,46 @@ pub fn vh_mac(a: &Args) {
                 }
                 h += 1;
             }
+            // Pairs of channel-mask commands, fixed plans: every ordered pair of LinkADRReq (ChMaskCntl, ChMask) classes,
+            // each command in a downlink of its own, chained in one history so that every command meets the state the
+            // previous one left (a bank-wise command after a sub-band command after an all-on / all-off command ...):
+            // the mask after each accepted command is exactly the commanded one, whatever parts of it "already fit".
+            if a.get("profile") == Some("cmds") && (region == "US915" || region == "AU915") && front == "async" {
+                let cntls: Vec<u8> = if a.thorough { (0..8).collect() } else { vec![0, 1, 4, 5, 6, 7] };
+                let masks: Vec<u16> = if a.thorough { vec![0x00FF, 0xFF00, 0x0003, 0xFFFF, 0x0000, 0x0081] } else { vec![0x00FF, 0xFF00, 0x0003, 0xFFFF] };
+                let mut cmds: Vec<(u8, u16)> = vec![];
+                let all: Vec<(u8, u16)> = cntls.iter().flat_map(|c| masks.iter().map(move |m| (*c, *m))).collect();
+                for x in &all {
+                    for y in &all {
+                        cmds.push(*x);
+                        cmds.push(*y);
+                    }
+                }
+                // (the chain is cut into histories of 400 commands; each starts from the default mask)
+                for chunk in cmds.chunks(400) {
+                    let ops = vec![
+                        Op::Reset { region: region.clone(), front: "async".into(), classc: false, board: 0, bias_sb: 0, bias_retries: 1,
+                                    lead: 10, buffer: 10, offset: 0, duration: 500, session: None },
+                        Op::JoinAbp { nwk: [3u8; 16], app: [4u8; 16], addr: [9, 8, 7, 6] },
+                    ];
+                    let mut i = 0usize;
+                    let chunk: Vec<(u8, u16)> = chunk.to_vec();
+                    let mut g = |view: &View| -> Option<Op> {
+                        let (cntl, mask) = *chunk.get(i)?;
+                        i += 1;
+                        let (nwk, app, ad) = view.keys?;
+                        let net = Net { nwk, app, addr: ad, sent: vec![] };
+                        let n = view.fcnt_down.map(|x| x + 1).unwrap_or(0);
+                        // DataRate 15 / TXPower 15: keep; NbTrans 1
+                        let fopts = [0x03, 0xff, (mask & 0xff) as u8, (mask >> 8) as u8, (cntl << 4) | 1];
+                        let mut plan = Proc { tx: "done".into(), ts: 10, fault: -1, ..Default::default() };
+                        plan.rx1.push(Frame { bytes: net.data(n, false, false, &fopts, -1, &[], false, false), snr: 5, intent: format!("auth:maskpair:{cntl}:{mask:#06x}") });
+                        Some(Op::Send { port: 2, data: vec![i as u8], confirmed: false, draws: vec![], plan })
+                    };
+                    let _ = run_history(out.shard(h), &ops, a.seed ^ (h as u64) ^ 0x3a5, Some(&mut g));
+                    h += 1;
+                }
+            }
             // Silent run: a long run of uplinks that nothing answers, from the default (lowest) data rate, from the one
             // above it and (thorough) from the highest: the ADR back-off falls due at 96, 128, .. uplinks - also when
             // there is no lower data rate left - and every one of these uplinks still needs a counter of its own
